@@ -510,6 +510,15 @@ def c17(res):
             res.violation({"property": "C17", "module": "ops", "config": out["config"]["name"], "family": adv,
                            "why": "a class with user-defined special methods (%s) behaves differently from the plain class on the same call" % adv,
                            "pred": d["pred"], "plain": d[base], "adversarial": d[adv]})
+    out = m1_ops.run_re_adversarial(res.tier)
+    res.add_tlc(out["tlc"])
+    res.replayed += out["n"]
+    res.extra["reentrant_hooks"] = {"replays": out["n"], "identical_to_the_as_built_model": out["same"]}
+    for d in out["lockstep_diff"]:
+        base, adv = d["pair"]
+        res.violation({"property": "C17", "module": "ops", "config": out["config"]["name"], "family": adv, "asrt": False,
+                       "why": "a class with user-defined special methods (%s) behaves differently from the plain class on the same call with a re-entrant hook" % adv,
+                       "pred": d["pred"], "plain": d[base], "adversarial": d[adv]})
     qouts = m2_query.run("C17", res.tier, families=tuple(["mixin", "light"] + ADV), others=())
     for out in qouts:
         if out["tlc"]["key"] not in seen:
